@@ -384,9 +384,10 @@ class ExceptionTrace(object):
             symbol = "*"
 
         for solution in solutions:
-            title = solution.solution_title
-            description = solution.solution_description
-            links = solution.documentation_links
+            # A solution may come without a title or a description (crashtest's BaseSolution defaults)
+            title = solution.solution_title or ""
+            description = solution.solution_description or ""
+            links = solution.documentation_links or []
 
             description = description.replace("\n", "\n    ").strip(" ")
 
